@@ -621,6 +621,96 @@ func c34loop(run *verifkit.Run, rng *verifkit.Rand, sample bool) {
 	}
 }
 
+// c34concurrent: readings are recorded (usageTracker.Add, the health-check goroutine's role)
+// while another goroutine generates and completes reports (the report goroutine's role);
+// every report is "sent". Conservation: what the reports carried equals the final readings.
+func c34concurrent(run *verifkit.Run, rng *verifkit.Rand, sample bool) {
+	u := c34newTracker()
+	adds := rng.Range(200, 1500)
+	final := c34usage{}
+	type rd struct {
+		s usageSignal
+		v int64
+	}
+	script := make([]rd, adds)
+	for i := range script {
+		s := c34signals[rng.Intn(len(c34signals))]
+		final[s] += int64(rng.Range(1, 1000))
+		script[i] = rd{s, final[s]}
+	}
+	yieldEvery := rng.Range(1, 8)
+	var done atomic.Bool
+	var wg sync.WaitGroup
+	wg.Add(1)
+	go func() {
+		defer wg.Done()
+		for i, r := range script {
+			c34trackerAdd(u, r.s, float64(r.v))
+			if i%yieldEvery == 0 {
+				runtime.Gosched()
+			}
+		}
+		done.Store(true)
+	}()
+	got := c34usage{}
+	reports, overlapped := 0, 0
+	now := time.Unix(1700000000, 0)
+	report := func() bool {
+		b, err := c34trackerReport(u, now)
+		if err != nil {
+			run.Violation("C34/concurrent/report-error", err.Error(), nil)
+			return false
+		}
+		if b == nil {
+			return true
+		}
+		usage, minV, err := c34decode(b)
+		if err != nil {
+			run.Violation("C34/concurrent/report-undecodable", err.Error(), nil)
+			return false
+		}
+		if minV < 0 {
+			run.Violation("C34/concurrent/negative-datapoint", fmt.Sprintf("datapoint %d", minV), nil)
+		}
+		for s, v := range usage {
+			got[s] += v
+		}
+		c34trackerComplete(u)
+		reports++
+		return true
+	}
+	for !done.Load() {
+		if !report() {
+			wg.Wait()
+			return
+		}
+		if !done.Load() {
+			overlapped++
+		}
+	}
+	wg.Wait()
+	report()
+	run.Count("concurrent_reports", int64(reports))
+	run.Count("concurrent_reports_overlapping_readings", int64(overlapped))
+	if overlapped >= 2 {
+		run.Nontrivial(fmt.Sprintf("concurrent:%d:%d", reports, adds))
+	}
+	for _, s := range c34signals {
+		if got[s] != final[s] {
+			sig := "C34/concurrent/usage-lost"
+			if got[s] > final[s] {
+				sig = "C34/concurrent/usage-double-counted"
+			}
+			run.Violation(sig, fmt.Sprintf("signal %s: readings grew to %d while %d reports (all sent) carried %d", s, final[s], reports, got[s]),
+				map[string]any{"readings": adds, "reports": reports, "final": fmt.Sprint(map[usageSignal]int64(final)), "reported": fmt.Sprint(map[usageSignal]int64(got))})
+			break
+		}
+	}
+	if sample {
+		run.Sample(map[string]any{"driver": "concurrent", "readings": adds, "reports": reports, "reports_overlapping_readings": overlapped})
+	}
+}
+
 // ---- entry point ------------------------------------------------------------
 
 func TestVerif_C34(t *testing.T) {
@@ -633,4 +723,5 @@ func TestVerif_C34(t *testing.T) {
 	run.Cases("tracker", run.N(3000, 300000), func(i int, rng *verifkit.Rand) { c34tracker(run, rng, i < 2) })
 	run.Cases("send", run.N(2000, 150000), func(i int, rng *verifkit.Rand) { c34send(run, rng, i < 1) })
 	run.Cases("loop", run.N(150, 4000), func(i int, rng *verifkit.Rand) { c34loop(run, rng, i < 1) })
+	run.Cases("concurrent", run.N(60, 3000), func(i int, rng *verifkit.Rand) { c34concurrent(run, rng, i < 1) })
 }
